@@ -1522,7 +1522,7 @@ def emit_fn(gen, sf, item, spec, canary=False, qual='', in_trait=False):
         line=line_of(src, toks[item.kw].start) + sf.line_base, hash=hashlib.sha256(body.encode()).hexdigest()[:16],
         gen_start=start_line, gen_end=end_line, canary=canary,
         contract=bool(spec.inserts), loops=len(fi.loops), bodiless=(item.body_open is None),
-        shape=cur_shape, fallback=fallback,
+        shape=cur_shape, fallback=fallback, used_kinds=_used_kinds(spec),
         ordinal=any(a.split()[0] in ('loop', 'before-loop', 'after-loop', 'return', 'break', 'closure', 'mapcollect', 'after-semi') for a, _, _ in spec.inserts)
                 or any(r in ('R-FOR', 'R-ENUM', 'R-ITER', 'R-HOIST', 'R-INTOVEC', 'R-CUTTAIL', 'R-CLOSPAT', 'R-MAPCOLLECT') for r, _ in spec.rewrites)))
     if not canary:
@@ -1633,6 +1633,28 @@ def emit_item(gen, sf, item, only=None, constcall=False, dropauto=False):
         gen.dropped[e[3]] = gen.dropped.get(e[3], 0) + 1
 
 
+_ANCHOR_KIND = {'loop': 'loops', 'before-loop': 'loops', 'after-loop': 'loops', 'return': 'returns', 'break': 'breaks',
+                'closure': 'closures', 'mapcollect': 'closures', 'after-semi': 'semis'}
+_REWRITE_KIND = {'R-FOR': 'loops', 'R-ENUM': 'loops', 'R-ITER': 'loops', 'R-HOIST': 'loops', 'R-HOISTEND': 'loops', 'R-INTOVEC': 'loops',
+                 'R-ITERMUT': 'loops', 'R-FORSTEP': 'loops', 'R-ITERPAIRMUT': 'loops', 'R-FORVEC': 'loops', 'R-CUTTAIL': 'returns',
+                 'R-CLOSPAT': 'closures', 'R-CLOSANN': 'closures', 'R-UPDATE': 'closures', 'R-MAPCOLLECT': 'closures'}
+
+
+def _used_kinds(spec):
+    """which counts (loops / returns / breaks / closures / semis) the ordinal anchors and rewrites of a function rely on"""
+    ks = set()
+    for a, _, _ in spec.inserts:
+        k = _ANCHOR_KIND.get(a.split()[0])
+        if k:
+            ks.add(k)
+    for r, _ in spec.rewrites:
+        k = _REWRITE_KIND.get(r)
+        if k:
+            ks.add(k)
+    # R-CLOSPAT numbers closures among all closure literals; anchors inside a loop body also depend on the loop count
+    return ks
+
+
 def _top_semis(toks, item):
     """number of `;` at the top level of a function body (shape component for `after-semi K` anchors)"""
     if item.body_open is None:
@@ -1656,9 +1678,11 @@ def check_shapes(gen, unit_path, record=False):
     import json
     path = os.path.join(os.path.dirname(unit_path), 'shape.json')
     cur = {}
+    used = {}
     for f in gen.functions:
         if not f['canary'] and f.get('ordinal') and not f.get('fallback'):
             cur[f['qual'] + f['name']] = f['shape']
+            used[f['qual'] + f['name']] = f.get('used_kinds')
     if record:
         json.dump(cur, open(path, 'w'), indent=1, sort_keys=True)
         return
@@ -1667,8 +1691,13 @@ def check_shapes(gen, unit_path, record=False):
     except OSError:
         return
     for k, v in want.items():
-        if k in cur and cur[k] != v:
-            raise LostAnchor(f'shape of {k} changed: recorded {v}, now {cur[k]} (ordinal anchors would be ambiguous)')
+        if k not in cur:
+            continue
+        # only the kinds of construct that this function's ordinal anchors / rewrites actually count matter: a new
+        # `break` cannot move a `loop K` anchor
+        kinds = used.get(k) or set(v) | set(cur[k])
+        if any(v.get(x) != cur[k].get(x) for x in kinds):
+            raise LostAnchor(f'shape of {k} changed: recorded {v}, now {cur[k]} (ordinal anchors on {sorted(kinds)} would be ambiguous)')
 
 
 def generate(unit_path, canaries=True, record_shapes=False, extra=None):
